@@ -323,6 +323,12 @@ func RunWorker(id string, p Params, shard, of, from, only int, out string) int {
 			limit = v
 		}
 	}
+	if only >= 0 {
+		// the confirmation run of a watchdog verdict: the case alone gets five times the budget — an endless loop
+		// exceeds any budget, a case that is merely slow on a loaded machine (CPU time in a VM includes contention)
+		// finishes and makes the verdict inconclusive; super-linear cost is C01's scaling monitor's business
+		limit *= 5
+	}
 	wk := &worker{f: f, limitNS: int64(limit) * 1e9}
 	go wk.watchdog()
 	flush := func() {
@@ -707,13 +713,13 @@ func runWorkers(ck *Check, p Params, work string) (merged *Result, harnessFail b
 					absorb(out + ".confirm")
 					if c2 == 3 {
 						v.Sig = "hang|" + hangSite(tail)
-						v.What = "a single case exceeded the CPU-time limit twice (once alone): " + firstLines(tail, 1)
+						v.What = "a single case exceeded the CPU-time limit, and five times that limit when run alone: " + firstLines(tail, 1)
 						mu.Lock()
 						merged.Violations = append(merged.Violations, v)
 						mu.Unlock()
 					} else {
 						mu.Lock()
-						merged.Inconclusive["watchdog fired but not reproduced in isolation"]++
+						merged.Inconclusive["watchdog fired, but the case finished within five times the CPU limit when run alone"]++
 						mu.Unlock()
 					}
 				} else {
